@@ -4,7 +4,9 @@ presets only inside their documented domain).  Every random choice goes through 
 import math
 from hypothesis import strategies as st
 
-LABELS = ["A", "B", "C", "a", "b", "Z", "a1", "Zz", "s 2", "0", "#", "site_10"]
+LABELS = ["A", "B", "C", "a", "b", "Z", "a1", "Zz", "s 2", "0", "#", "site_10",
+          # labels that differ only after a long common prefix (and one that is a prefix of another)
+          "bath_site_1", "bath_site_2", "impurity", "impurity2", "a_rather_long_site_label_number_001", "a_rather_long_site_label_number_002"]
 
 
 def grid_amp(lo=-32, hi=32):
